@@ -136,6 +136,14 @@ def check_lexer(ctx, s, as_lines=False):
                          payload=['str', {'s': s}])
             if not triple and how == 'str':
                 ntok = len(toks)
+    # the iterator protocol delivers every token exactly once however it is consumed
+    if ntok >= 3 and len(s) % 4 == 0:
+        ok, seq = ctx.call(_mixed_consumption, _lex, s, clause='TokenIterator')
+        ok2, ref_seq = ctx.call(lambda: [(t.type, t.text, t.lineno, t.offset) for t in _lex(s)], clause='lex')
+        if ok and ok2 and seq != ref_seq:
+            ctx.fail('TokenIterator:tokens-repeated-or-lost', detail={'input': s[:300], 'got': repr(seq)[:400],
+                                                                      'want': repr(ref_seq)[:400]},
+                     payload=['str', {'s': s}])
     # default pattern argument == graph pattern
     ok, toks = ctx.call(lambda: [(t.type, t.text, t.lineno, t.offset) for t in _lex(s)], clause='lex')
     ok2, toks2 = ctx.call(lambda: [(t.type, t.text, t.lineno, t.offset)
@@ -143,6 +151,25 @@ def check_lexer(ctx, s, as_lines=False):
     if ok and ok2 and toks != toks2:
         ctx.fail('lex:default-pattern', detail={'input': s[:300]}, payload=['str', {'s': s}])
     return ntok
+
+
+def _mixed_consumption(lex, s):
+    """consume a token stream partly by a for-loop that breaks, then by peek/next/accept/expect"""
+    it = lex(s)
+    out = []
+    n = 0
+    for t in it:
+        out.append(t)
+        n += 1
+        if n == 2:
+            break
+    if it:
+        out.append(it.next())
+    while it:
+        t = it.peek()
+        got = it.accept(t.type) if len(out) % 2 else it.expect(t.type)
+        out.append(got)
+    return [(t.type, t.text, t.lineno, t.offset) for t in out]
 
 
 BLANKS = ' \t\r\n\v\f'
